@@ -1,6 +1,8 @@
 //! tokio re-exported for the shadow build of the agent, with two seams:
-//! * `task::block_in_place(f)` = `f()`, so that the agent can run on a current_thread runtime with a
-//!   paused clock;
+//! * `task::block_in_place(f)` = `f()` on a current_thread runtime, so that the agent can run on the
+//!   simulation's single-threaded runtime with a paused clock; on a multi-threaded runtime (the agent
+//!   executable as a child process) it is tokio's own block_in_place, which hands the worker's other
+//!   tasks to another thread;
 //! * `spawn` (and `task::spawn`) can delay the first poll of the spawned task by a seeded number of
 //!   virtual milliseconds (`chaos::set`). On a multi-threaded runtime the order in which freshly
 //!   spawned tasks first run is not fixed; on the single-threaded simulation runtime it is, and this
@@ -57,7 +59,10 @@ pub mod task {
     where
         F: FnOnce() -> R,
     {
-        f()
+        match real_tokio::runtime::Handle::try_current().map(|h| h.runtime_flavor()) {
+            Ok(real_tokio::runtime::RuntimeFlavor::CurrentThread) | Err(_) => f(),
+            Ok(_) => real_tokio::task::block_in_place(f),
+        }
     }
     pub fn spawn<F>(future: F) -> JoinHandle<F::Output>
     where
